@@ -77,6 +77,24 @@ def _run_contract(job):
                 if o.status == "dead":
                     dead.add(o.path_id)
         out["live_paths"] = stats.get("paths", 0) - len(dead)
+        if tier == "thorough":
+            # engine differential: one concrete input per reachable path (its cover model), interpreter vs CPython
+            diff = {"agree": 0, "differ": [], "skipped": 0, "skip_reason": None}
+            done = 0
+            for o in obls:
+                if o.kind == "cover" and o.path_id not in dead and getattr(o, "model", None) is not None and done < 12:
+                    v, d = vc.differential(c, Interp(repo), o.model, repo)
+                    done += 1
+                    if v == "agree":
+                        diff["agree"] += 1
+                    elif v == "differ":
+                        diff["differ"].append(f"path {o.path_id}: {d}"[:300])
+                    else:
+                        diff["skipped"] += 1
+                        diff["skip_reason"] = d[:200]
+                        if "summaries" in d or "natively" in d:
+                            break
+            out["differential"] = diff
         for o in obls:
             if o.path_id in dead:
                 continue
@@ -206,11 +224,24 @@ def main(argv):
     contracts = mod.CONTRACTS
     jobs = [(prop, k, repo, tier) for k in range(len(contracts))]
     nproc = max(1, min(int(os.environ.get("VERIF_JOBS", "8")), len(jobs)))
-    if nproc > 1:
-        with mp.Pool(nproc) as pool:
-            results = pool.map(run_contract, jobs, chunksize=1)
+    # watchdog: a contract that does not finish within the budget is reported as undecided (never as held)
+    budget = int(os.environ.get("VERIF_CONTRACT_TIMEOUT", "1800" if tier != "thorough" else "5400"))
+    deadline = time.time() + budget
+    if nproc >= 1 and len(jobs) > 0:
+        pool = mp.Pool(nproc)
+        pending = [pool.apply_async(run_contract, (j,)) for j in jobs]
+        results = []
+        for j, r in zip(jobs, pending):
+            try:
+                results.append(r.get(timeout=max(1.0, deadline - time.time())))
+            except mp.TimeoutError:
+                c = contracts[j[1]]
+                results.append({"index": j[1], "obligations": [], "error": None, "label": c.label, "file": c.file, "func": c.func,
+                                "bounded": c.bounded, "unsupported": f"no verdict within {budget} s (watchdog)", "seconds": budget})
+        pool.terminate()
+        pool.join()
     else:
-        results = [run_contract(j) for j in jobs]
+        results = []
 
     # extra (ground / lemma / structural) obligations of the property, run in-process
     extra = []
@@ -237,6 +268,8 @@ def main(argv):
     discharged_names = set()
     failed_names = set()
     all_records = []
+    cross_stats = {"confirmed": 0, "second_solver_gave_no_verdict": 0}
+    engine_diff = {"inputs_compared": 0, "agree": 0, "contracts_compared": 0, "contracts_skipped": 0, "differences": []}
     for r in results:
         if r.get("error"):
             errors.append(f"{r.get('label', r['index'])}: {r['error']}")
@@ -252,6 +285,14 @@ def main(argv):
                           "dropped": r["stats"].get("dropped"), "seconds": round(r["seconds"], 2)})
         if r.get("live_paths", 0) == 0:
             errors.append(f"{r['label']}: zero feasible paths (vacuous precondition)")
+        if r.get("differential"):
+            d = r["differential"]
+            engine_diff["inputs_compared"] += d["agree"] + len(d["differ"])
+            engine_diff["agree"] += d["agree"]
+            engine_diff["contracts_compared"] += 1 if d["agree"] + len(d["differ"]) else 0
+            engine_diff["contracts_skipped"] += 1 if not (d["agree"] + len(d["differ"])) else 0
+            for x in d["differ"]:
+                engine_diff["differences"].append(f"{r['label']}: {x}")
         for o in r["obligations"]:
             o["bounded"] = r["bounded"]
             all_records.append(o)
@@ -271,8 +312,13 @@ def main(argv):
             if is_cover:
                 n_cover += 1
                 continue
-            if o.get("cross") not in (None, "unsat"):
-                undecided.append((name, f"solvers disagree or second solver undecided: z3 unsat, cvc5 {o['cross']}"))
+            if o.get("cross") == "unsat":
+                cross_stats["confirmed"] += 1
+            elif o.get("cross") == "sat":
+                # a genuine disagreement between the two solvers: the obligation is not counted as discharged
+                undecided.append((name, "solvers disagree: z3 unsat, cvc5 sat"))
+            elif o.get("cross") is not None:
+                cross_stats["second_solver_gave_no_verdict"] += 1
             if o.get("bounded"):
                 bounded_items.append(name)
                 discharged_names.add(name)  # passes on the unchanged tree (for the baseline), never counted as proved
@@ -360,6 +406,8 @@ def main(argv):
             "known_findings_matched": sorted(seen_k),
             "not_decided": list(getattr(mod, "NOT_DECIDED", [])),
             "samples": samples,
+            "engine_differential_vs_cpython": engine_diff if tier == "thorough" else "thorough tier only",
+            "cvc5_cross_check_of_z3_discharged_obligations": cross_stats if tier == "thorough" else "thorough tier only",
             "explanation": getattr(mod, "EXPLANATION", ""),
             "undecided": [u[0] for u in undecided], "errors": errors,
         },
@@ -379,6 +427,14 @@ def main(argv):
           f"undecided={len(undecided)} errors={len(errors)} wall={wall:.1f}s")
     for ln in lines:
         print(ln)
+    if tier == "thorough":
+        print(f"engine differential vs CPython: {engine_diff['agree']}/{engine_diff['inputs_compared']} concrete inputs agree over "
+              f"{engine_diff['contracts_compared']} contracts ({engine_diff['contracts_skipped']} not natively callable)")
+        print(f"cvc5 cross-check: {cross_stats['confirmed']} z3-discharged obligations confirmed, {cross_stats['second_solver_gave_no_verdict']} "
+              f"without a verdict from cvc5 (unknown / timeout / unsupported), 0 contradicted" if not any("solvers disagree" in u[1] for u in undecided)
+              else "cvc5 cross-check: CONTRADICTION reported above")
+        for x in engine_diff["differences"][:10]:
+            print("ENGINE-DIFFERENCE (informational):", x)
     if seen_v:
         return 1
     if errors:
